@@ -15,7 +15,7 @@
   quantified), `reachable_cons` (all finite histories), `revalidation_restores` (after an excluded relabelling
   the guarantee is back at the next full validation, from any state whatsoever).
 -/
-import PdtModel.Lemmas.Meta
+import PdtModel.Lemmas.MetaRule
 set_option linter.unusedSimpArgs false
 set_option linter.unusedVariables false
 namespace Pdt.C15
